@@ -50,6 +50,41 @@ func Pow(base, exp int) int64 {
 	return r
 }
 
+// decomposable lists, per alphabet, the symbol runs that spell a composite symbol of the same
+// alphabet: a sequence containing such a run denotes the same string as a shorter sequence.
+var decomposable = map[string][][]string{
+	"classA": {{")", " ", "{"}},
+	"classB": {{"{", "{"}, {"}", "}"}, {"\r", "\n"}},
+	"classC": {{"X", " := ", "\"s\""}},
+}
+
+// ClassCanonical reports whether the idx-th sequence of n symbols is the canonical (shortest)
+// spelling of its string within the alphabet, i.e. contains no decomposable run. Strings counted
+// only at their canonical spelling are pairwise distinct within one alphabet.
+func ClassCanonical(kind string, alpha []string, n int, idx int64) bool {
+	k := int64(len(alpha))
+	var syms [16]string
+	for i := n - 1; i >= 0; i-- {
+		syms[i] = alpha[idx%k]
+		idx /= k
+	}
+	for _, run := range decomposable[kind] {
+		for i := 0; i+len(run) <= n; i++ {
+			match := true
+			for j := range run {
+				if syms[i+j] != run[j] {
+					match = false
+					break
+				}
+			}
+			if match {
+				return false
+			}
+		}
+	}
+	return true
+}
+
 // ClassString builds the idx-th string of exactly n symbols over the alphabet.
 func ClassString(alpha []string, n int, idx int64, buf *strings.Builder) string {
 	buf.Reset()
